@@ -14,7 +14,10 @@ import (
 
 	abci "github.com/cometbft/cometbft/abci/types"
 	"github.com/ethereum/go-ethereum/common"
+	"github.com/ethereum/go-ethereum/common/hexutil"
 	"pgregory.net/rapid"
+
+	evmtypes "github.com/EscanBE/evermint/v12/x/evm/types"
 
 	"verif/harness/chain"
 	"verif/harness/evmgen"
@@ -86,7 +89,11 @@ func genCpcPlan(t *rapid.T, w chain.World) TxPlan {
 	val := chain.ValOperKey(rapid.IntRange(0, nv-1).Draw(t, "val")).Addr
 	other := chain.K(rapid.IntRange(0, nEOA-1).Draw(t, "other")).Addr
 	amt := bigU(rapid.Uint64Range(0, 2000000).Draw(t, "amt"))
-	switch rapid.IntRange(0, 7).Draw(t, "cpck") {
+	switch rapid.IntRange(0, 9).Draw(t, "cpck") {
+	case 8: // the ERC-20 precompile of the second denomination: exists only once a history deployed it
+		p.To, p.Data = erc20FooAddr().Hex(), packErc20("name")
+	case 9:
+		p.To, p.Data = erc20FooAddr().Hex(), packErc20("transfer", other, amt)
 	case 0:
 		p.To, p.Data = erc20NativeAddr().Hex(), packErc20("transfer", other, amt)
 	case 1:
@@ -120,6 +127,7 @@ func genC01(t *rapid.T) c01Case {
 	if rapid.IntRange(0, 5).Draw(t, "smallblock") == 5 {
 		w.MaxGas = rapid.Int64Range(100000, 2000000).Draw(t, "maxgas")
 	}
+	w.Deployers = []int{0}
 	cs := c01Case{World: w, OptsB: rapid.IntRange(0, len(c01OptsB)-1).Draw(t, "optsb")}
 	// one case in eight is also re-executed in another process (other GOMAXPROCS, time zone, home, locale)
 	cs.Child = rapid.IntRange(0, 7).Draw(t, "child") == 0
@@ -129,6 +137,9 @@ func genC01(t *rapid.T) c01Case {
 			switch k := rapid.IntRange(0, 11).Draw(t, "txk"); {
 			case k == 11:
 				bp.Txs = append(bp.Txs, TxPlan{Kind: "raw", Raw: hex.EncodeToString(rapid.SliceOfN(rapid.Byte(), 0, 60).Draw(t, "raw"))})
+			case k == 10 && rapid.Bool().Draw(t, "deploy"):
+				// a custom precompile deployed by the history (not by genesis)
+				bp.Txs = append(bp.Txs, TxPlan{Kind: "deploy20", From: 0, Gas: 500000, CapOver: gwei})
 			case k == 10:
 				bp.Txs = append(bp.Txs, genBankPlan(t))
 			case k >= 8:
@@ -259,6 +270,56 @@ func replayBlocks(w chain.World, opts chain.NodeOpts, recs []blockRecord) ([]*ab
 	return out, c, nil
 }
 
+// replayBlocksNoisy re-executes recorded blocks while the node also serves non-consensus requests after every block:
+// eth_call against every custom precompile and the first contracts at the latest and at the two preceding heights,
+// Simulate and CheckTx of the next block's first tx.
+func replayBlocksNoisy(w chain.World, recs []blockRecord) ([]*abci.ResponseFinalizeBlock, *chain.Chain, error) {
+	c, err := chain.NewStarted(w, chain.NodeOpts{})
+	if err != nil {
+		return nil, nil, err
+	}
+	targets := []common.Address{erc20NativeAddr(), erc20FooAddr(), stakingCpcAddr(), bech32CpcAddr()}
+	for i, ct := range w.Contracts {
+		if i < 2 {
+			targets = append(targets, common.HexToAddress(ct.Addr))
+		}
+	}
+	var out []*abci.ResponseFinalizeBlock
+	for bi, br := range recs {
+		var txs [][]byte
+		for _, tr := range br.Txs {
+			txs = append(txs, tr.Built.Bytes)
+		}
+		res, err := c.RunBlock(chain.Block{Dt: br.Plan.Dt, Proposer: br.Plan.Proposer, Txs: txs})
+		if err != nil {
+			return out, c, err
+		}
+		out = append(out, res)
+		for _, h := range []int64{c.Height - 2, c.Height - 1, c.Height} {
+			if h < 1 {
+				continue
+			}
+			for _, to := range targets {
+				to := to
+				from := chain.K(1).Addr
+				args := evmtypes.TransactionArgs{From: &from, To: &to}
+				d := hexutil.Bytes(unhexS(packErc20("name")))
+				args.Data = &d
+				bz, _ := json.Marshal(&args)
+				req := evmtypes.EthCallRequest{Args: bz, GasCap: 1000000}
+				rbz, _ := req.Marshal()
+				_, _ = c.Query("/ethermint.evm.v1.Query/EthCall", rbz, h)
+			}
+		}
+		if bi+1 < len(recs) && len(recs[bi+1].Txs) > 0 {
+			_, _, _ = c.Simulate(recs[bi+1].Txs[0].Built.Bytes)
+			_, _ = c.CheckTx(recs[bi+1].Txs[0].Built.Bytes, false)
+		}
+		c.Panics = nil
+	}
+	return out, c, nil
+}
+
 func classifyC01(o *Outcome, recs []blockRecord) {
 	okEth, special := 0, 0
 	for _, br := range recs {
@@ -330,6 +391,24 @@ func runC01(cs c01Case) *Outcome {
 		}
 		if len(o.Devs) > 0 {
 			break
+		}
+	}
+	if len(o.Devs) == 0 {
+		// a node that also serves queries, simulations and mempool checks (at the latest and at older heights) between
+		// blocks must produce the same results
+		resN, n, err := replayBlocksNoisy(cs.World, recs)
+		if n != nil {
+			defer n.Close()
+		}
+		if err != nil {
+			o.dev("", "re-execution with node-local query traffic failed: %v", err)
+			return o
+		}
+		for bi := range recs {
+			for _, d := range cmpBlockResults(bi, recs[bi].Res, resN[bi]) {
+				d.Msg = "with node-local query traffic between blocks: " + d.Msg
+				o.Devs = append(o.Devs, d)
+			}
 		}
 	}
 	if cs.Child && len(o.Devs) == 0 {
